@@ -4,6 +4,7 @@
 From Coq Require Import List NArith Bool.
 From FB Require Import Model.Pseudo Gen.VfsTable Model.Vfs Proofs.VfsCodec Proofs.VfsAlloc Proofs.VfsInv Proofs.VfsRouting
   Proofs.VfsIssued Proofs.PseudoWalk Proofs.VfsIdmap Proofs.VfsMapOf Proofs.VfsAsync.
+From FB Require Lib.RustExpr Gen.RustPure Proofs.RustPure Proofs.RustPureIdmap.
 Import ListNotations.
 Local Open Scope N_scope.
 
@@ -130,6 +131,23 @@ Proof. exact failed_mount_clean. Qed.
 Example C14_overflow_without_wf : remap_id 10 0 4294967290 100 = None.
 Proof. exact remap_overflow. Qed.
 
+(* ---- tie to the source text (Gen/RustPure.v is re-translated from src/api/vfs/mod.rs on every run): evaluating the
+   body of `fn remap_id` under rustc's integer semantics gives the model's [remap_id], for all u32 arguments; [None] is
+   the debug-build panic "attempt to add with overflow"; the release build wraps instead *)
+Theorem C14_src_remap_id : forall v f t r, v < 4294967296 -> f < 4294967296 -> t < 4294967296 -> r < 4294967296 ->
+  RustExpr.eval_fn RustExpr.Debug RustPure.remap_id_src
+    [RustExpr.VInt RustExpr.U32 v; RustExpr.VInt RustExpr.U32 f; RustExpr.VInt RustExpr.U32 t; RustExpr.VInt RustExpr.U32 r] =
+  match remap_id v f t r with
+  | Some x => RustExpr.Val (RustExpr.VInt RustExpr.U32 x)
+  | None => RustExpr.Panic RustExpr.POverflow
+  end.
+Proof. exact RustPureIdmap.src_remap_id. Qed.
+Theorem C14_src_remap_id_release : forall v f t r, v < 4294967296 -> f < 4294967296 -> t < 4294967296 -> r < 4294967296 ->
+  RustExpr.eval_fn RustExpr.Release RustPure.remap_id_src
+    [RustExpr.VInt RustExpr.U32 v; RustExpr.VInt RustExpr.U32 f; RustExpr.VInt RustExpr.U32 t; RustExpr.VInt RustExpr.U32 r] =
+  RustExpr.Val (RustExpr.VInt RustExpr.U32 (if (f <=? v) && (v - f <? r) then (v - f + t) mod 4294967296 else v)).
+Proof. exact RustPureIdmap.src_remap_id_release. Qed.
+
 Print Assumptions C14_remap_algebra.
 Print Assumptions C14_in_ctx.
 Print Assumptions C14_in_full.
@@ -144,3 +162,5 @@ Print Assumptions C14_mapping_of_full.
 Print Assumptions C14_async_same.
 Print Assumptions C14_async_in_ctx.
 Print Assumptions C14_async_getattr_full.
+Print Assumptions C14_src_remap_id.
+Print Assumptions C14_src_remap_id_release.
